@@ -487,7 +487,7 @@ bool var_opt_union<T, A>::detect_and_handle_subcase_of_pseudo_exact(var_opt_sket
   } else {
 
     // explicitly enforce rule that items in H should not be lighter than the sketch's tau
-    const bool anti_condition4 = there_exist_unmarked_h_items_lighter_than_target(gadget_.get_tau());
+    const bool anti_condition4 = there_exist_unmarked_h_items_lighter_than_target(get_outer_tau());
     if (anti_condition4) {
       return false;
     } else {
@@ -574,6 +574,9 @@ void var_opt_union<T, A>::mark_moving_gadget_coercer(var_opt_sketch<T, A>& sk) c
   sk.h_ = result_h;
   sk.r_ = result_r;
   sk.total_wt_r_ = result_r_weight;
+
+  // the gadget was still in warm-up (insertion) order: the H region of an estimation-mode sketch must be a heap
+  sk.convert_to_heap();
 }
 
 // this is basically a continuation of get_result(), but modifying the input gadget copy
